@@ -1,12 +1,13 @@
+import GitBugModel.Model.Text
 /-
 Model of `entities/identity`: version chains, `Identity.Validate`, `Identity.Merge`
 (fast-forward only), `identity.MergeAll` for one remote ref, `ValidKeysAtTime`.  Core Lean only.
 -/
 namespace GitBugModel.Identity
 
-/-- A version as far as validation, merging and key validity can see it.  The text predicates
-of `version.Validate` (`text.Empty`, `text.SafeOneLine`, `text.ValidUrl`) depend on Unicode
-tables and are supplied by the environment as flags. -/
+/-- A version as far as validation, merging and key validity can see it.  `text.SafeOneLine` is
+modelled (`GitBugModel.Text.safeOneLine`, see `Version.withTexts`); `text.Empty` and `text.ValidUrl`
+depend on Unicode tables / net/url and are supplied by the environment as flags. -/
 structure Version where
   commit : String                    -- commit hash ("" while not committed)
   times : List (String × Nat)        -- Lamport times of the other entities (clock name ↦ time)
@@ -20,6 +21,11 @@ structure Version where
   keysOk : Bool := true
   keys : List String := []           -- key fingerprints
 deriving DecidableEq, Repr, Inhabited
+
+/-- the safety flags of a version computed from its texts, as `version.Validate` does with
+`text.SafeOneLine(name)`, `text.SafeOneLine(login)`, `text.SafeOneLine(email)` -/
+def Version.withTexts (v : Version) (name login email : List Char) : Version :=
+  { v with nameSafe := Text.safeOneLine name, loginSafe := Text.safeOneLine login, emailSafe := Text.safeOneLine email }
 
 /-- `version.Validate` (field part) -/
 def Version.fieldsValid (v : Version) : Bool :=
